@@ -256,8 +256,8 @@ HoldFor(a, r) ==
   IF ~Ok(r) THEN r ELSE
   CASE a.a = "var" -> HoldVar(r, r.n)
     [] a.a \in {"const", "map", "map2", "fold", "mapref", "mwo", "zip", "dependon", "bind"} -> Hold(r, r.n)
-    [] a.a \in {"xjoin", "xsum"} -> Hold(r, r.n - 1)
-    [] a.a = "xcell" -> Hold(Hold(r, r.n - 1), r.n)     \* the harness also keeps the controlling node
+    [] a.a = "xjoin" -> Hold(r, r.n - 1)
+    [] a.a \in {"xcell", "xsum"} -> Hold(Hold(r, r.n - 1), r.n)     \* the harness also keeps the controlling node
     [] OTHER -> r
 
 ---------------------------------------------------------------------------
